@@ -12,7 +12,9 @@ export JAVA_TOOL_OPTIONS="-Djava.io.tmpdir=$T"      # SANY unpacks its standard 
 cp spec/*.tla "$T"/
 for f in "$T"/*.tla; do
   case "$f" in */ClipProof.tla|*/AllocApa.tla) continue;; esac      # a TLAPS proof module (tlapm, check C03) and an Apalache module (apalache-mc, check C11): their library modules are not on SANY's path
-  (cd "$T" && tla-sany "$(basename "$f")" >/dev/null 2>&1) || { echo "SANY failed on $f"; (cd "$T" && tla-sany "$(basename "$f")" | tail -5); rm -rf "$T"; exit 1; }
+  # (tla-sany exits 0 on semantic errors: its output decides)
+  o=$(cd "$T" && tla-sany "$(basename "$f")" 2>&1) || { echo "SANY failed on $f"; echo "$o" | tail -5; rm -rf "$T"; exit 1; }
+  case "$o" in *"*** Errors"*|*"Unknown operator"*|*"*** Abort"*|*"Parse Error"*|*"Fatal errors"*) echo "SANY failed on $f"; echo "$o" | tail -8; rm -rf "$T"; exit 1;; esac
 done
 rm -rf "$T"
 echo setup ok
